@@ -20,7 +20,6 @@ type simTimer struct {
 	ch       chan time.Time
 	fn       func()
 	key      unsafe.Pointer
-	gen      int64
 }
 
 var (
@@ -32,6 +31,8 @@ var (
 
 const longTime = 1000 * time.Hour
 
+const maxTimeSkips = 20000
+
 //go:norace
 func addTimer(d time.Duration, period time.Duration, ch chan time.Time, fn func(), key unsafe.Pointer) {
 	now, _ := simNow()
@@ -42,7 +43,7 @@ func addTimer(d time.Duration, period time.Duration, ch chan time.Time, fn func(
 	if d < 0 {
 		d = 0
 	}
-	timers[nTimers] = simTimer{deadline: now + int64(d), period: int64(period), ch: ch, fn: fn, key: key, gen: runGen}
+	timers[nTimers] = simTimer{deadline: now + int64(d), period: int64(period), ch: ch, fn: fn, key: key}
 	nTimers++
 	recomputeNextTimer()
 	progress++
@@ -140,7 +141,9 @@ func fireDue() {
 //
 //go:norace
 func advanceToNextTimer() bool {
-	if nTimers == 0 {
+	if nTimers == 0 || res.TimeSkips >= maxTimeSkips {
+		// (a caller that is still blocked after this many timer periods in which nothing
+		// but timer-driven work happened is reported as blocked for ever)
 		return false
 	}
 	now, _ := simNow()
@@ -149,24 +152,6 @@ func advanceToNextTimer() bool {
 		res.TimeSkips++
 	}
 	return true
-}
-
-//go:norace
-func timersReset() {
-	// timers of earlier runs stay armed (a janitor's ticker belongs to the process), but
-	// their goroutines are gone: drop timers whose owner generation is over
-	j := 0
-	for i := 0; i < nTimers; i++ {
-		if timers[i].gen == runGen {
-			timers[j] = timers[i]
-			j++
-		}
-	}
-	for k := j; k < nTimers; k++ {
-		timers[k] = simTimer{}
-	}
-	nTimers = j
-	recomputeNextTimer()
 }
 
 // ---- rewritten API ----
